@@ -4,7 +4,7 @@ import ast
 from ..core import sym
 from ..core.expand import u, call_name, get_arg, bind_args, Expander, is_marker, phi_alternatives
 from ..core.loader import Inconclusive, const_value, parents
-from .common import (returns, all_nodes, callee, strip_shape, calls_in, guards_of, stmt_of, loops_around, kw,
+from .common import (aliases_of, returns, all_nodes, callee, strip_shape, calls_in, guards_of, stmt_of, loops_around, kw,
                      find_assignments, result_fields, in_loop, compare_nf, opaque_in)
 from .c06 import _masked_sources
 
@@ -280,7 +280,7 @@ def rule_isomorphism(ck):
             sims = rets[0].value.elts[2]
             if isinstance(sims, ast.Name):
                 apps = [n for n in all_nodes(t) if isinstance(n, ast.Call) and isinstance(n.func, ast.Attribute) and n.func.attr == 'append'
-                        and isinstance(n.func.value, ast.Name) and n.func.value.id == sims.id]
+                        and isinstance(n.func.value, ast.Name) and n.func.value.id in aliases_of(t, sims.id)]
                 oo = ck.ob('C16-D4.sim', t, apps[0] if apps else 'append', apps[0] if apps else t.node)
                 good = len(apps) == 1 and apps[0].args and isinstance(ex.expand(apps[0].args[0]), ast.Call) and call_name(ex.expand(apps[0].args[0])) == kq
                 (oo.ok() if good else oo.fail('the value appended to the test distribution is not the score kernel applied to the simulated catalog'))
